@@ -89,4 +89,16 @@ def check (server : Bool) (resetMax : Option Nat) (digest : String) : List Strin
     (if streams.isEmpty ∧ (ns ≠ 0 ∨ nr ≠ 0) then ["C19 counters-not-idle-with-empty-store"] else [])
   | _, _, _ => if digest == "gone" ∨ digest == "-" then [] else ["?? unparsed digest"]
 
+/-- C03, per stream: while the stream is alive, its receive handle is held and nothing is buffered for
+    it, the octets the endpoint counts as in flight are exactly the octets the application was given
+    and has not released yet (`held`, tracked from the API calls) — anything more is credit that
+    nobody can ever give back. -/
+def heldCheck (digest : String) (sid held : Nat) : List String :=
+  let segs := digest.splitOn "|"
+  match (segs.find? (·.startsWith s!"S{sid}:")).bind parseS with
+  | none => []
+  | some e =>
+    if e.state.startsWith "Closed.Error" || e.state.startsWith "Closed.Scheduled" || has e 'R' then []
+    else if e.inFlight ≠ held then ["C03 in-flight-octets-that-nobody-holds"] else []
+
 end H2V.Spec.StateInv
